@@ -30,9 +30,11 @@ pub enum Bin {
     Access,
     Apply,
     ApplyTo,
+    /// `a <> b`: a concatenation value (lists directly under it are spliced when it is walked)
+    Concat,
 }
 
-pub const BINS: [Bin; 25] = [
+pub const BINS: [Bin; 26] = [
     Bin::Add,
     Bin::Sub,
     Bin::Mul,
@@ -58,6 +60,7 @@ pub const BINS: [Bin; 25] = [
     Bin::Access,
     Bin::Apply,
     Bin::ApplyTo,
+    Bin::Concat,
 ];
 
 impl Bin {
@@ -88,6 +91,7 @@ impl Bin {
             Bin::Access => ".",
             Bin::Apply => "<~",
             Bin::ApplyTo => "~>",
+            Bin::Concat => "<>",
         }
     }
     pub fn prio(self) -> usize {
@@ -101,6 +105,7 @@ impl Bin {
             Bin::BXor => 112,
             Bin::BOr => 113,
             Bin::Pair => 210,
+            Bin::Concat => 240,
             Bin::Lt | Bin::Le | Bin::Gt | Bin::Ge => 300,
             Bin::Eq | Bin::Ne => 400,
             Bin::And => 410,
@@ -530,6 +535,7 @@ pub fn rand_expr(r: &mut Rng, depth: usize, cfg: &GenCfg) -> E {
                 4 => *r.pick(&[Bin::BAnd, Bin::BOr, Bin::BXor, Bin::Shl, Bin::Shr]),
                 5 | 6 => *r.pick(&[Bin::Lt, Bin::Le, Bin::Gt, Bin::Ge, Bin::Eq, Bin::Ne]),
                 7 => *r.pick(&[Bin::And, Bin::Or, Bin::Xor]),
+                8 => *r.pick(&[Bin::Pair, Bin::Concat, Bin::Access]),
                 _ => *r.pick(&[Bin::Pair, Bin::Pair, Bin::Access]),
             };
             if b == Bin::Access {
